@@ -381,4 +381,157 @@ theorem onColumn_protect_block_in_text (c : CryptoOps) (hs : SealLaws c) (kvW kv
   rw [h, hsc]
   simp [ScanOut.prepend]
 
+/-! ## AcraStruct (asymmetric envelope) -/
+
+/-- `CreateAcrastruct` succeeds for every non-empty message below 4 GiB and every well-formed
+recipient key, as soon as the random source delivers its 88 bytes. -/
+theorem struct_create_total (c : CryptoOps) (hs : SealLaws c) (hm : MsgLaws c) (hk : KeygenLaws c)
+    (priv ctx m rnd : Bytes) (hpriv : c.validPriv priv = true)
+    (hne : m ≠ []) (hml : m.length < maxMsgLen) (hr : 88 ≤ rnd.length) :
+    ∃ s, createStruct c (c.pubOf priv) ctx m rnd = .ok s := by
+  have hn : nonceLen = 12 := rfl
+  have hmax : maxMsgLen = 2^32 := rfl
+  have hvalid : c.validPriv (c.privOfSeed (rnd.take 32)) = true :=
+    hk.valid_seed _ (by rw [List.length_take]; omega)
+  have h1 : c.wrap (c.privOfSeed (rnd.take 32)) (c.pubOf priv) ((rnd.drop 32).take 32) ((rnd.drop 64).take 12) ≠ none := by
+    intro h
+    rcases (hm.wrap_none _ _ _ _ hvalid hpriv).mp h with h | h | h
+    · have := congrArg List.length h
+      rw [List.length_take, List.length_drop, List.length_nil] at this
+      omega
+    · rw [List.length_take, List.length_drop, hn] at h; omega
+    · rw [List.length_take, List.length_drop, hmax] at h; omega
+  have h2 : c.enc ((rnd.drop 32).take 32) ctx m ((rnd.drop 76).take 12) ≠ none := by
+    intro h
+    rcases (hs.enc_none _ _ _ _).mp h with h | h | h | h
+    · exact hne h
+    · have := congrArg List.length h
+      rw [List.length_take, List.length_drop, List.length_nil] at this
+      omega
+    · rw [List.length_take, List.length_drop, hn] at h; omega
+    · omega
+  cases h1' : c.wrap (c.privOfSeed (rnd.take 32)) (c.pubOf priv) ((rnd.drop 32).take 32) ((rnd.drop 64).take 12) with
+  | none => exact absurd h1' h1
+  | some encKey =>
+    cases h2' : c.enc ((rnd.drop 32).take 32) ctx m ((rnd.drop 76).take 12) with
+    | none => exact absurd h2' h2
+    | some encData =>
+      refine ⟨structTag ++ c.pubOf (c.privOfSeed (rnd.take 32)) ++ encKey ++ leBytes 8 encData.length ++ encData, ?_⟩
+      unfold createStruct
+      simp only [h1', h2']
+
+/-- AcraStruct round trip through the library calls. If `CreateAcrastruct` produced `s` for message
+`m`, the public key of `priv` and context `ctx` (`struct_create_total`: it does for every non-empty
+`m` below 4 GiB), then `s` passes `ValidateAcraStructLength`, `ExtractAcraStruct` finds exactly `s`
+at the start of `s` followed by arbitrary bytes, and `DecryptRotatedAcrastruct` with ANY list of
+private keys that contains `priv` returns exactly `m`, provided every key listed before it fails on
+`s` (or happens to give the same answer). Nothing more can be said about earlier keys: the laws of
+Secure Message say nothing about unwrapping with a wrong or malformed key. `SealLen`/`MsgLen` give the
+byte layout (45-byte public key, 84-byte wrapped key) and keep the 8-byte length field and the Go
+`int` conversions exact; no commitment is assumed. (`m ≠ []`, `m.length < maxMsgLen`,
+`88 ≤ rnd.length` are implied by `hc`.) -/
+theorem struct_roundtrip (c : CryptoOps) (hs : SealLaws c) (hsl : SealLen c) (hm : MsgLaws c) (hml : MsgLen c)
+    (hk : KeygenLaws c) (priv ctx m rnd s : Bytes) (pre post : List Bytes)
+    (hpriv : c.validPriv priv = true)
+    (hc : createStruct c (c.pubOf priv) ctx m rnd = .ok s)
+    (hpre : ∀ k' ∈ pre, decryptStruct c k' ctx s = .err ∨ decryptStruct c k' ctx s = .ok m) :
+    validateStruct s = .ok () ∧
+    (∀ suffix, extractStruct (s ++ suffix) = .ok (s.length, s)) ∧
+    decryptStructRotated c ctx s (pre ++ priv :: post) = .ok m := by
+  obtain ⟨hval, hx, hd, _, _⟩ := c01_struct_roundtrip c hs hsl hm hml hk priv ctx m rnd s hpriv hc
+  exact ⟨hval, hx, c01_decryptStructRotated_found c ctx s priv m pre post hpre hd⟩
+
+/-- A value protected as AcraStruct is never wrapped a second time, by either envelope kind, any
+client's keys, any random stream. -/
+theorem protect_idempotent_struct (c : CryptoOps) (hs : SealLaws c) (hsl : SealLen c) (hml : MsgLen c)
+    (hk : KeygenLaws c) (kv : KeyView) (m rnd p : Bytes)
+    (hp : protect c kv .struct m rnd = .ok p) (hne : p ≠ m) :
+    ∀ (k' : Kind) (kv' : KeyView) (rnd' : Bytes), protect c kv' k' p rnd' = .ok p := by
+  obtain ⟨hnm, hnr⟩ := protect_ne_input c kv .struct m rnd p hp hne
+  obtain ⟨e, he, hne', rfl⟩ := c01_protect_ok hp hnm hnr
+  obtain ⟨pub, _, hcs⟩ := c01_encryptKind_struct he hnm
+  obtain ⟨encKey, encData, h1, h2, rfl⟩ := c01_createStruct_ok hcs
+  obtain ⟨_, _, hpub, hek, hed, hmlen, _⟩ := c01_createStruct_sizes hs hsl hml hk h1 h2
+  have hv : leVal (leBytes 8 encData.length) = encData.length := c01_leVal_leBytes8 (by omega)
+  have hval := c01_validateStruct_fields _ encKey (leBytes 8 encData.length) encData hpub hek (by simp) hv (by omega)
+  intro k' kv' rnd'
+  apply c01_protect_of_match
+  right
+  have hmk : matchKind .struct (structTag ++ c.pubOf (c.privOfSeed (rnd.take 32)) ++ encKey ++
+      leBytes 8 encData.length ++ encData) = true := by
+    unfold matchKind
+    simp only [hval]
+    rfl
+  have := c01_registryMatch_ser .struct _ [] hne'
+    (by simp [c01_structTag_length, hpub, hek]; omega) hmk
+  rw [List.append_nil] at this
+  exact this
+
+/-- Protect-then-reveal for the AcraStruct kind through the registry handler: the writer used the
+public key of `priv`; the reader's list of private keys contains `priv` anywhere (written before a
+rotation: still readable), earlier keys fail on the value (see `struct_roundtrip`). -/
+theorem reveal_protect_struct (c : CryptoOps) (hs : SealLaws c) (hsl : SealLen c) (hm : MsgLaws c) (hml : MsgLen c)
+    (hk : KeygenLaws c) (kvW kvR : KeyView) (priv m rnd p : Bytes) (pre post : List Bytes)
+    (hpriv : c.validPriv priv = true)
+    (hW : kvW.pub = some (c.pubOf priv)) (hR : kvR.privs = some (pre ++ priv :: post))
+    (hpre : ∀ k' ∈ pre, ∀ s, createStruct c (c.pubOf priv) [] m rnd = .ok s →
+      decryptStruct c k' [] s = .err ∨ decryptStruct c k' [] s = .ok m)
+    (hnm : matchKind .struct m = false) (hnr : registryMatch m = false)
+    (hp : protect c kvW .struct m rnd = .ok p) : reveal c kvR p = .ok m := by
+  obtain ⟨e, rfl, he, hlen, hmlen, hmatch, hdec⟩ := c01_protect_struct_facts c hs hsl hm hml hk kvW kvR priv m rnd p
+    pre post hpriv hW hR hpre hnm hnr hp
+  have := c01_process_ser c kvR .struct e [] he (by omega) hmatch
+  rw [List.append_nil] at this
+  unfold reveal
+  rw [this, hdec]
+
+/-- Protect as AcraStruct, store inside other bytes, read back through the transparent column
+processor (see `onColumn_protect_embedded_block`; here `m ≠ p ++ suf` holds automatically because the
+container is 201 bytes longer than `m`). -/
+theorem onColumn_protect_embedded_struct (c : CryptoOps) (hs : SealLaws c) (hsl : SealLen c) (hm : MsgLaws c)
+    (hml : MsgLen c) (hk : KeygenLaws c) (kvW kvR : KeyView) (priv m rnd p bpre suf : Bytes)
+    (kpre kpost : List Bytes) (front rest : List Callback)
+    (hpriv : c.validPriv priv = true)
+    (hW : kvW.pub = some (c.pubOf priv)) (hR : kvR.privs = some (kpre ++ priv :: kpost))
+    (hkpre : ∀ k' ∈ kpre, ∀ s, createStruct c (c.pubOf priv) [] m rnd = .ok s →
+      decryptStruct c k' [] s = .err ∨ decryptStruct c k' [] s = .ok m)
+    (hnm : matchKind .struct m = false) (hnr : registryMatch m = false)
+    (hp : protect c kvW .struct m rnd = .ok p)
+    (hfront : ∀ cb ∈ front, cb (p ++ suf) = .same ∨ cb (p ++ suf) = .decErr)
+    (hskip : ∀ i, i < bpre.length → ∃ hit,
+      headStep (front ++ decryptCallback c kvR :: rest) ((bpre ++ p ++ suf).drop i) = .skip hit) :
+    onColumn (front ++ decryptCallback c kvR :: rest) (bpre ++ p ++ suf) =
+      (scan (front ++ decryptCallback c kvR :: rest) suf).prepend (bpre ++ m) true := by
+  obtain ⟨e, rfl, he, hlen, hmlen, hmatch, hdec⟩ := c01_protect_struct_facts c hs hsl hm hml hk kvW kvR priv m rnd p
+    kpre kpost hpriv hW hR hkpre hnm hnr hp
+  have hne : m ≠ serBytes e Kind.struct.id ++ suf := by
+    intro h
+    have := congrArg List.length h
+    rw [List.length_append, c01_serBytes_length] at this
+    omega
+  exact (onColumn_reveal_embedded c kvR .struct e bpre suf m front rest he (by omega) hmatch hdec hne hfront hskip).2
+
+/-- End to end for ordinary text around an AcraStruct-protected value (no `%` before or after):
+`OnColumn` with the decrypt callback returns exactly `before ++ m ++ after`. -/
+theorem onColumn_protect_struct_in_text (c : CryptoOps) (hs : SealLaws c) (hsl : SealLen c) (hm : MsgLaws c)
+    (hml : MsgLen c) (hk : KeygenLaws c) (kvW kvR : KeyView) (priv m rnd p bpre suf : Bytes)
+    (kpre kpost : List Bytes)
+    (hpriv : c.validPriv priv = true)
+    (hW : kvW.pub = some (c.pubOf priv)) (hR : kvR.privs = some (kpre ++ priv :: kpost))
+    (hkpre : ∀ k' ∈ kpre, ∀ s, createStruct c (c.pubOf priv) [] m rnd = .ok s →
+      decryptStruct c k' [] s = .err ∨ decryptStruct c k' [] s = .ok m)
+    (hnm : matchKind .struct m = false) (hnr : registryMatch m = false)
+    (hp : protect c kvW .struct m rnd = .ok p)
+    (hbpre : ∀ x ∈ bpre, x ≠ 37) (hsuf : ∀ x ∈ suf, x ≠ 37) :
+    onColumn [decryptCallback c kvR] (bpre ++ p ++ suf) = .ok (bpre ++ m ++ suf) true := by
+  have h := onColumn_protect_embedded_struct c hs hsl hm hml hk kvW kvR priv m rnd p bpre suf kpre kpost [] []
+    hpriv hW hR hkpre hnm hnr hp (by simp)
+    (by rw [List.append_assoc]; exact c01_skip_of_no_tag_byte _ bpre (p ++ suf) hbpre)
+  rw [List.nil_append] at h
+  have hs' := c01_skip_of_no_tag_byte [decryptCallback c kvR] suf [] hsuf
+  simp only [List.append_nil] at hs'
+  obtain ⟨hit, hsc⟩ := c01_scan_plain _ suf hs'
+  rw [h, hsc]
+  simp [ScanOut.prepend]
+
 end AcraModel.Props.C01
